@@ -100,12 +100,12 @@ Props/C05.vos Props/C05.vok Props/C05.required_vos: Props/C05.v Props/Shipped.vo
 Props/C06.vo Props/C06.glob Props/C06.v.beautified Props/C06.required_vo: Props/C06.v Props/Shipped.vo Spec/Eval.vo Proofs/ApiFacts.vo Proofs/Laws.vo Proofs/MatchProof.vo Proofs/Sat.vo
 Props/C06.vio: Props/C06.v Props/Shipped.vio Spec/Eval.vio Proofs/ApiFacts.vio Proofs/Laws.vio Proofs/MatchProof.vio Proofs/Sat.vio
 Props/C06.vos Props/C06.vok Props/C06.required_vos: Props/C06.v Props/Shipped.vos Spec/Eval.vos Proofs/ApiFacts.vos Proofs/Laws.vos Proofs/MatchProof.vos Proofs/Sat.vos
-Props/C07.vo Props/C07.glob Props/C07.v.beautified Props/C07.required_vo: Props/C07.v Props/Shipped.vo Proofs/Laws.vo
-Props/C07.vio: Props/C07.v Props/Shipped.vio Proofs/Laws.vio
-Props/C07.vos Props/C07.vok Props/C07.required_vos: Props/C07.v Props/Shipped.vos Proofs/Laws.vos
-Props/C10.vo Props/C10.glob Props/C10.v.beautified Props/C10.required_vo: Props/C10.v Props/Shipped.vo Spec/Eval.vo Proofs/Laws.vo
-Props/C10.vio: Props/C10.v Props/Shipped.vio Spec/Eval.vio Proofs/Laws.vio
-Props/C10.vos Props/C10.vok Props/C10.required_vos: Props/C10.v Props/Shipped.vos Spec/Eval.vos Proofs/Laws.vos
+Props/C07.vo Props/C07.glob Props/C07.v.beautified Props/C07.required_vo: Props/C07.v Props/Shipped.vo Proofs/Laws.vo Proofs/Respell.vo
+Props/C07.vio: Props/C07.v Props/Shipped.vio Proofs/Laws.vio Proofs/Respell.vio
+Props/C07.vos Props/C07.vok Props/C07.required_vos: Props/C07.v Props/Shipped.vos Proofs/Laws.vos Proofs/Respell.vos
+Props/C10.vo Props/C10.glob Props/C10.v.beautified Props/C10.required_vo: Props/C10.v Props/Shipped.vo Spec/Eval.vo Proofs/Laws.vo Proofs/Respell.vo
+Props/C10.vio: Props/C10.v Props/Shipped.vio Spec/Eval.vio Proofs/Laws.vio Proofs/Respell.vio
+Props/C10.vos Props/C10.vok Props/C10.required_vos: Props/C10.v Props/Shipped.vos Spec/Eval.vos Proofs/Laws.vos Proofs/Respell.vos
 Props/C15.vo Props/C15.glob Props/C15.v.beautified Props/C15.required_vo: Props/C15.v Props/Shipped.vo Spec/Lex.vo Proofs/ScanRef.vo Proofs/Offsets.vo Proofs/ApiFacts.vo
 Props/C15.vio: Props/C15.v Props/Shipped.vio Spec/Lex.vio Proofs/ScanRef.vio Proofs/Offsets.vio Proofs/ApiFacts.vio
 Props/C15.vos Props/C15.vok Props/C15.required_vos: Props/C15.v Props/Shipped.vos Spec/Lex.vos Proofs/ScanRef.vos Proofs/Offsets.vos Proofs/ApiFacts.vos
@@ -181,9 +181,33 @@ WF/Spellings.vos WF/Spellings.vok WF/Spellings.required_vos: WF/Spellings.v Spec
 Proofs/Congruence.vo Proofs/Congruence.glob Proofs/Congruence.v.beautified Proofs/Congruence.required_vo: Proofs/Congruence.v Model/Api.vo Spec/Eval.vo Spec/Spellings.vo Proofs/BytesFacts.vo Proofs/Sat.vo Proofs/MatchProof.vo
 Proofs/Congruence.vio: Proofs/Congruence.v Model/Api.vio Spec/Eval.vio Spec/Spellings.vio Proofs/BytesFacts.vio Proofs/Sat.vio Proofs/MatchProof.vio
 Proofs/Congruence.vos Proofs/Congruence.vok Proofs/Congruence.required_vos: Proofs/Congruence.v Model/Api.vos Spec/Eval.vos Spec/Spellings.vos Proofs/BytesFacts.vos Proofs/Sat.vos Proofs/MatchProof.vos
-Props/C08.vo Props/C08.glob Props/C08.v.beautified Props/C08.required_vo: Props/C08.v Props/Shipped.vo Spec/Spellings.vo WF/Spellings.vo Proofs/Congruence.vo Proofs/BytesFacts.vo Proofs/MatchProof.vo
-Props/C08.vio: Props/C08.v Props/Shipped.vio Spec/Spellings.vio WF/Spellings.vio Proofs/Congruence.vio Proofs/BytesFacts.vio Proofs/MatchProof.vio
-Props/C08.vos Props/C08.vok Props/C08.required_vos: Props/C08.v Props/Shipped.vos Spec/Spellings.vos WF/Spellings.vos Proofs/Congruence.vos Proofs/BytesFacts.vos Proofs/MatchProof.vos
-Props/C09.vo Props/C09.glob Props/C09.v.beautified Props/C09.required_vo: Props/C09.v Props/Shipped.vo Spec/Spellings.vo WF/Spellings.vo Proofs/Congruence.vo Proofs/NodeInv.vo
-Props/C09.vio: Props/C09.v Props/Shipped.vio Spec/Spellings.vio WF/Spellings.vio Proofs/Congruence.vio Proofs/NodeInv.vio
-Props/C09.vos Props/C09.vok Props/C09.required_vos: Props/C09.v Props/Shipped.vos Spec/Spellings.vos WF/Spellings.vos Proofs/Congruence.vos Proofs/NodeInv.vos
+Props/C08.vo Props/C08.glob Props/C08.v.beautified Props/C08.required_vo: Props/C08.v Props/Shipped.vo Spec/Spellings.vo Spec/Units.vo WF/Spellings.vo WF/Units.vo Proofs/Congruence.vo Proofs/BytesFacts.vo Proofs/MatchProof.vo Proofs/Split.vo Proofs/SameParse.vo Proofs/Laws.vo Proofs/ApiFacts.vo
+Props/C08.vio: Props/C08.v Props/Shipped.vio Spec/Spellings.vio Spec/Units.vio WF/Spellings.vio WF/Units.vio Proofs/Congruence.vio Proofs/BytesFacts.vio Proofs/MatchProof.vio Proofs/Split.vio Proofs/SameParse.vio Proofs/Laws.vio Proofs/ApiFacts.vio
+Props/C08.vos Props/C08.vok Props/C08.required_vos: Props/C08.v Props/Shipped.vos Spec/Spellings.vos Spec/Units.vos WF/Spellings.vos WF/Units.vos Proofs/Congruence.vos Proofs/BytesFacts.vos Proofs/MatchProof.vos Proofs/Split.vos Proofs/SameParse.vos Proofs/Laws.vos Proofs/ApiFacts.vos
+Props/C09.vo Props/C09.glob Props/C09.v.beautified Props/C09.required_vo: Props/C09.v Props/Shipped.vo Spec/Spellings.vo Spec/Units.vo WF/Spellings.vo WF/Units.vo Proofs/Congruence.vo Proofs/NodeInv.vo Proofs/Split.vo Proofs/SameParse.vo Proofs/CaseFold.vo Proofs/Laws.vo Proofs/ApiFacts.vo
+Props/C09.vio: Props/C09.v Props/Shipped.vio Spec/Spellings.vio Spec/Units.vio WF/Spellings.vio WF/Units.vio Proofs/Congruence.vio Proofs/NodeInv.vio Proofs/Split.vio Proofs/SameParse.vio Proofs/CaseFold.vio Proofs/Laws.vio Proofs/ApiFacts.vio
+Props/C09.vos Props/C09.vok Props/C09.required_vos: Props/C09.v Props/Shipped.vos Spec/Spellings.vos Spec/Units.vos WF/Spellings.vos WF/Units.vos Proofs/Congruence.vos Proofs/NodeInv.vos Proofs/Split.vos Proofs/SameParse.vos Proofs/CaseFold.vos Proofs/Laws.vos Proofs/ApiFacts.vos
+Proofs/Split.vo Proofs/Split.glob Proofs/Split.v.beautified Proofs/Split.required_vo: Proofs/Split.v Model/Scan.vo Model/Parse.vo Spec/Lex.vo Proofs/BytesFacts.vo Proofs/ScanRef.vo Proofs/Offsets.vo
+Proofs/Split.vio: Proofs/Split.v Model/Scan.vio Model/Parse.vio Spec/Lex.vio Proofs/BytesFacts.vio Proofs/ScanRef.vio Proofs/Offsets.vio
+Proofs/Split.vos Proofs/Split.vok Proofs/Split.required_vos: Proofs/Split.v Model/Scan.vos Model/Parse.vos Spec/Lex.vos Proofs/BytesFacts.vos Proofs/ScanRef.vos Proofs/Offsets.vos
+Proofs/Lexo.vo Proofs/Lexo.glob Proofs/Lexo.v.beautified Proofs/Lexo.required_vo: Proofs/Lexo.v Model/Scan.vo Model/Parse.vo Spec/Lex.vo Proofs/BytesFacts.vo Proofs/ScanRef.vo Proofs/Offsets.vo Proofs/Split.vo Proofs/ParseGrammar.vo
+Proofs/Lexo.vio: Proofs/Lexo.v Model/Scan.vio Model/Parse.vio Spec/Lex.vio Proofs/BytesFacts.vio Proofs/ScanRef.vio Proofs/Offsets.vio Proofs/Split.vio Proofs/ParseGrammar.vio
+Proofs/Lexo.vos Proofs/Lexo.vok Proofs/Lexo.required_vos: Proofs/Lexo.v Model/Scan.vos Model/Parse.vos Spec/Lex.vos Proofs/BytesFacts.vos Proofs/ScanRef.vos Proofs/Offsets.vos Proofs/Split.vos Proofs/ParseGrammar.vos
+Proofs/Respell.vo Proofs/Respell.glob Proofs/Respell.v.beautified Proofs/Respell.required_vo: Proofs/Respell.v Model/Scan.vo Model/Parse.vo Spec/Lex.vo Spec/Grammar.vo Proofs/BytesFacts.vo Proofs/ScanRef.vo Proofs/Split.vo Proofs/Lexo.vo Proofs/ParseGrammar.vo
+Proofs/Respell.vio: Proofs/Respell.v Model/Scan.vio Model/Parse.vio Spec/Lex.vio Spec/Grammar.vio Proofs/BytesFacts.vio Proofs/ScanRef.vio Proofs/Split.vio Proofs/Lexo.vio Proofs/ParseGrammar.vio
+Proofs/Respell.vos Proofs/Respell.vok Proofs/Respell.required_vos: Proofs/Respell.v Model/Scan.vos Model/Parse.vos Spec/Lex.vos Spec/Grammar.vos Proofs/BytesFacts.vos Proofs/ScanRef.vos Proofs/Split.vos Proofs/Lexo.vos Proofs/ParseGrammar.vos
+Proofs/Replace.vo Proofs/Replace.glob Proofs/Replace.v.beautified Proofs/Replace.required_vo: Proofs/Replace.v Model/Scan.vo Model/Parse.vo Spec/Lex.vo Proofs/BytesFacts.vo Proofs/ScanRef.vo Proofs/Split.vo Proofs/Lexo.vo Proofs/Respell.vo
+Proofs/Replace.vio: Proofs/Replace.v Model/Scan.vio Model/Parse.vio Spec/Lex.vio Proofs/BytesFacts.vio Proofs/ScanRef.vio Proofs/Split.vio Proofs/Lexo.vio Proofs/Respell.vio
+Proofs/Replace.vos Proofs/Replace.vok Proofs/Replace.required_vos: Proofs/Replace.v Model/Scan.vos Model/Parse.vos Spec/Lex.vos Proofs/BytesFacts.vos Proofs/ScanRef.vos Proofs/Split.vos Proofs/Lexo.vos Proofs/Respell.vos
+Spec/Units.vo Spec/Units.glob Spec/Units.v.beautified Spec/Units.required_vo: Spec/Units.v Model/Api.vo Spec/Lex.vo Spec/WF.vo Spec/Spellings.vo
+Spec/Units.vio: Spec/Units.v Model/Api.vio Spec/Lex.vio Spec/WF.vio Spec/Spellings.vio
+Spec/Units.vos Spec/Units.vok Spec/Units.required_vos: Spec/Units.v Model/Api.vos Spec/Lex.vos Spec/WF.vos Spec/Spellings.vos
+WF/Units.vo WF/Units.glob WF/Units.v.beautified WF/Units.required_vo: WF/Units.v Spec/Units.vo Gen/Tables.vo
+WF/Units.vio: WF/Units.v Spec/Units.vio Gen/Tables.vio
+WF/Units.vos WF/Units.vok WF/Units.required_vos: WF/Units.v Spec/Units.vos Gen/Tables.vos
+Proofs/SameParse.vo Proofs/SameParse.glob Proofs/SameParse.v.beautified Proofs/SameParse.required_vo: Proofs/SameParse.v Model/Api.vo Spec/Eval.vo Spec/WF.vo Spec/Units.vo Proofs/BytesFacts.vo Proofs/NodeInv.vo Proofs/Sat.vo Proofs/ApiFacts.vo Proofs/Laws.vo Proofs/Lexo.vo Proofs/Split.vo Proofs/Replace.vo Proofs/Respell.vo
+Proofs/SameParse.vio: Proofs/SameParse.v Model/Api.vio Spec/Eval.vio Spec/WF.vio Spec/Units.vio Proofs/BytesFacts.vio Proofs/NodeInv.vio Proofs/Sat.vio Proofs/ApiFacts.vio Proofs/Laws.vio Proofs/Lexo.vio Proofs/Split.vio Proofs/Replace.vio Proofs/Respell.vio
+Proofs/SameParse.vos Proofs/SameParse.vok Proofs/SameParse.required_vos: Proofs/SameParse.v Model/Api.vos Spec/Eval.vos Spec/WF.vos Spec/Units.vos Proofs/BytesFacts.vos Proofs/NodeInv.vos Proofs/Sat.vos Proofs/ApiFacts.vos Proofs/Laws.vos Proofs/Lexo.vos Proofs/Split.vos Proofs/Replace.vos Proofs/Respell.vos
+Proofs/CaseFold.vo Proofs/CaseFold.glob Proofs/CaseFold.v.beautified Proofs/CaseFold.required_vo: Proofs/CaseFold.v Model/Api.vo Spec/Lex.vo Spec/WF.vo Spec/Units.vo Spec/Spellings.vo Proofs/BytesFacts.vo Proofs/ScanRef.vo Proofs/Split.vo Proofs/Lexo.vo Proofs/Respell.vo Proofs/Replace.vo Proofs/Congruence.vo Proofs/NodeInv.vo Proofs/WFSound.vo Proofs/SameParse.vo
+Proofs/CaseFold.vio: Proofs/CaseFold.v Model/Api.vio Spec/Lex.vio Spec/WF.vio Spec/Units.vio Spec/Spellings.vio Proofs/BytesFacts.vio Proofs/ScanRef.vio Proofs/Split.vio Proofs/Lexo.vio Proofs/Respell.vio Proofs/Replace.vio Proofs/Congruence.vio Proofs/NodeInv.vio Proofs/WFSound.vio Proofs/SameParse.vio
+Proofs/CaseFold.vos Proofs/CaseFold.vok Proofs/CaseFold.required_vos: Proofs/CaseFold.v Model/Api.vos Spec/Lex.vos Spec/WF.vos Spec/Units.vos Spec/Spellings.vos Proofs/BytesFacts.vos Proofs/ScanRef.vos Proofs/Split.vos Proofs/Lexo.vos Proofs/Respell.vos Proofs/Replace.vos Proofs/Congruence.vos Proofs/NodeInv.vos Proofs/WFSound.vos Proofs/SameParse.vos
